@@ -12,6 +12,26 @@ CLAIMED = {
         "For every object type and every size / OFS offset below 2^63 the real header encoder and decoders are mutual inverses and produce git's canonical length; the offset decoder is total on every varint of <= 4 bytes; bisect_find_sha is exact on every sorted table of <= 5 first-byte-distinguished names. Decided by z3 over all values in those bounds, per path of the real code; nothing is claimed outside them (zlib payloads, index files, delta chains are outside this check so far).",
         "Trusted: z3, the ksym proxies/models (translator-validated against native CPython on pinned vectors every run), CPython. Python ints are 128-bit bit-vectors with discharged width obligations.",
     ),
+    "C03": (
+        "bounded symbolic execution of the real delta decoder/encoder (ksym), solver-decided containment, length and round-trip assertions",
+        "Every byte string of up to 6 bytes (8 thorough) offered as a delta to the real pure-Python apply_delta against symbolic bases either raises ApplyDeltaError or returns chunks of exactly the declared length that are slices of base/delta (provenance on the symbolic terms); size varints of up to 11 bytes stay inside the error family; _delta_encode_size and _encode_copy_operation decode (git reference decoder) to their arguments for all n<2^63, start<2^32, 1<=len<=0xFFFF; apply(create(b,t),b)==t for every valid 2-opcode diff script over small symbolic buffers. The Rust decoder/encoder and >64KiB copy splits are outside this check so far.",
+        "Trusted: z3, ksym proxies/models, CPython; difflib.SequenceMatcher replaced by an arbitrary opcode list satisfying its documented contract.",
+    ),
+    "C16": (
+        "bounded symbolic execution of the real check_ref_format (ksym) against a reference model of git check-ref-format, one solver query per path",
+        "check_ref_format agrees with git check-ref-format on every byte string of length 1..6 (7-8 thorough) and on every name built around '.lock', '@{', '..', '//' with up to 4 free bytes (names up to 9 bytes). The reference model is validated against the installed git binary (tools/validate_git_models.py). The backend-contract half of C16 (one step from arbitrary states vs a map model) is not covered by this check yet.",
+        "Trusted: z3, ksym, the reference model of git's rules (validated against git 2.39.5 on 3000 random names).",
+    ),
+    "C19": (
+        "bounded symbolic execution of the real pkt-line/side-band code (ksym) with symbolic stream contents, cut positions and recv sizes",
+        "All 2^32 length prefixes decided in one run; PktLineParser and Protocol.read_pkt_line agree with an independent reference parser on every byte string of up to 7 bytes (9 thorough) and under every pair of cut positions; ReceivableProtocol.read/recv deliver the stream in order for every symbolic recv-size schedule over 3 calls; BufferedPktLineWriter output equals the concatenated frames around the buffer boundary; capability/ref/cmd lines and side-band demultiplexing round-trip. Payloads near the 65520-byte limit need symbolic lengths (opaque ropes) and are not covered yet.",
+        "Trusted: z3, ksym, CPython. Protocol tokens are assumed printable non-blank bytes.",
+    ),
+    "C20": (
+        "bounded symbolic execution of the real config reader/writer (ksym) against each other and against a reference model of git's parse_value/write_pair",
+        "For every NUL-free value of up to 4 bytes (5 thorough): dulwich reads back what it writes; git's reader (reference model) reads the same value from what dulwich writes; dulwich reads what git's writer (reference model) produces; subsection names of up to 3 bytes survive escaping and the section-header parser; a ConfigFile with a single- and a multi-valued key survives write_to_file/from_file with order kept; name rules equal git's. Reference models validated against the installed git binary. Three genuine defects found by this check were repaired (fix: commits 8f76b79, f15a11c, 8bfa6ad).",
+        "Trusted: z3, ksym, the git reference models (validated against git 2.39.5).",
+    ),
 }
 
 NOT_YET = "check not built yet in this round (planned in DESIGN.md section 4); no claim is made"
